@@ -79,6 +79,20 @@ def build_inputs(entry, rep, cond):
     store['galaxy'] = 200.0 * np.exp(-np.sqrt(((gx - 20.3) ** 2 + ((gy - 19.8) / 0.7) ** 2)) / 5.0)
     store['idw_pos'] = np.array(E._positions()); store['idw_vals'] = np.array([1.0, 2.0, 3.0, 4.0])
     store['local_bkg'] = np.array([0.5, 1.0, 0.0, 2.0, 0.1])
+    # configured helper objects handed to other objects (they must come back as configured)
+    if entry in ('background2d', 'psf_photometry'):
+        import photutils.background as B
+        from astropy.stats import SigmaClip
+        from photutils.detection import DAOStarFinder
+        from photutils.psf import SourceGrouper
+        store['bkg_estimator'] = B.MedianBackground()                     # default: sigma_clip = SigmaClip(3)
+        store['bkgrms_estimator'] = B.MADStdBackgroundRMS()
+        store['sigma_clip_obj'] = SigmaClip(sigma=2.5, maxiters=4)
+        store['interpolator'] = B.BkgZoomInterpolator(order=2)
+        store['grouper'] = SourceGrouper(9.0)
+        store['localbkg_est'] = B.LocalBackground(5, 9, bkg_estimator=B.MedianBackground())
+        store['finder'] = DAOStarFinder(10.0, 3.5)
+        # (an astropy fitter is not tracked: storing fit_info on itself is the documented behaviour of astropy's fitters)
     store['sigclip'] = cond in ('nonfinite', 'negative')
     store['localbkg_width'] = 4 if cond == 'negative' else 0
     if cond == 'invalid' and entry in E.NOIMG_INVALID:
@@ -89,6 +103,26 @@ def build_inputs(entry, rep, cond):
     return store
 
 
+def describe(obj, depth=0):
+    """public configuration of a helper object (estimator, sigma clip, interpolator, grouper, finder, fitter): type + public attributes"""
+    if isinstance(obj, (bool, int, float, str, type(None))):
+        return obj
+    if isinstance(obj, (np.ndarray, np.generic)):
+        return ['array', digest(np.asarray(obj))]
+    if isinstance(obj, (list, tuple)):
+        return [describe(x, depth + 1) for x in obj]
+    if isinstance(obj, dict):
+        return {str(k): describe(v, depth + 1) for k, v in sorted(obj.items(), key=lambda kv: str(kv[0]))}
+    if callable(obj) and not hasattr(obj, '__dict__'):
+        return getattr(obj, '__name__', type(obj).__name__)
+    d = {'__type__': type(obj).__name__}
+    if depth < 3:
+        for k, v in sorted(getattr(obj, '__dict__', {}).items()):
+            if not k.startswith('_'):
+                d[k] = describe(v, depth + 1) if not callable(v) or hasattr(v, '__dict__') else getattr(v, '__name__', type(v).__name__)
+    return d
+
+
 def snapshot(store):
     out = {}
     for k, v in store.items():
@@ -96,6 +130,9 @@ def snapshot(store):
             continue
         if hasattr(v, 'deblended_labels_inverse_map') and hasattr(v, 'data'):      # SegmentationImage
             out[k] = digest([np.asarray(v.data), sorted((int(a), [int(c) for c in b]) for a, b in v.deblended_labels_inverse_map.items())])
+        elif type(v).__module__.split('.')[0] in ('photutils', 'astropy') and not hasattr(v, 'param_names') and not hasattr(v, 'colnames') \
+                and not isinstance(v, np.ndarray) and not hasattr(v, 'uncertainty'):
+            out[k] = digest(describe(v))
         elif hasattr(v, 'param_names'):
             out[k] = digest([[float(np.ravel(getattr(v, n).value)[0]) for n in v.param_names], [bool(getattr(v, n).fixed) for n in v.param_names]])
         else:
